@@ -801,8 +801,10 @@ def rule_rejections(ctx: Ctx, out: Collector) -> None:
             if isinstance(n, ast.Raise) and isinstance(n.exc, ast.Call):
                 d = (dotted(n.exc.func) or '').split('.')[-1]
                 found.setdefault(d, []).append((u, n))
+    # what each rejection means is decided by interpretation, one small world per defect (never by the text of the guard)
+    verdicts = _rejection_worlds(ctx, found)
     n_ok = 0
-    for cls, tokens in REJECTIONS.items():
+    for cls in REJECTIONS:
         if not p.classes_by_name.get(cls):
             raise AnalysisError(f'rejection class {cls} vanished')
         cons = f'build entry points::raise {cls} under its documented condition'
@@ -811,25 +813,139 @@ def rule_rejections(ctx: Ctx, out: Collector) -> None:
             out.bad('VL-3', cons, '', f'{cls} is never raised in code reachable from build_dag / build_dag_single / build_node: the '
                                       f'corresponding defect is no longer rejected at build time', props={'C16'})
             continue
-        good = False
-        details = []
-        for u, r in sites:
-            gs = guards(u.node, r)
-            gtxt = ' && '.join(('' if pol else 'not ') + _expanded_text(e, u.module) + _helper_bodies(ctx, u, e) for e, pol in gs)
-            const_false = any((isinstance(e, ast.Constant) and bool(e.value) != pol) for e, pol in gs)
-            missing = [t for t in tokens if t not in gtxt]
-            details.append(f'{u.qualname}: {gtxt or "<unconditional>"}')
-            if not missing and not const_false and gs:
-                good = True
-        if good:
+        problems, detail = verdicts[cls]
+        if not problems:
             n_ok += 1
-            out.ok('VL-3', cons, p.loc(sites[0][0], sites[0][1]), details[0][:160])
+            out.ok('VL-3', cons, p.loc(sites[0][0], sites[0][1]), detail[:200])
         else:
             out.bad('VL-3', cons, p.loc(sites[0][0], sites[0][1]),
-                    f'{cls} is raised, but not under its documented condition (expected the guard to involve {tokens}; found '
-                    f'{"; ".join(details)[:200]}): valid declarations are rejected or the defect is no longer detected', props={'C16'})
+                    f'{cls} is raised, but not under its documented condition ({"; ".join(problems)[:260]}): valid declarations are '
+                    f'rejected or the defect is no longer detected', props={'C16'})
     if n_ok == 0:
         raise AnalysisError('no rejection recognised (VL-3 anchors vanished)')
+
+
+def _rejection_worlds(ctx: Ctx, found) -> Dict[str, Tuple[List[str], str]]:
+    """class name -> (problems, how it was decided)."""
+    from ..absint import AClass, AObj, ARaise, Interp, Oracle, TOP, enumerate_outcomes
+    p = ctx.p
+    out: Dict[str, Tuple[List[str], str]] = {}
+    node_base = [ci for ci in p.classes.values() if ci.name == 'NodeBase']
+
+    def outcomes(unit, args, kwargs, self_obj, ext, stubs=None, consume=False):
+        def run(oracle: Oracle):
+            interp = Interp(p, oracle, stubs=stubs or {}, ext_stubs=ext)
+            res_ = interp.call_unit(unit, list(args), dict(kwargs), self_obj)
+            return interp._to_list(res_) if consume else res_        # a lazily computed result is judged when it is consumed
+        import re
+        res = set()
+        for o in enumerate_outcomes(run):
+            if o[0] == 'value':
+                res.add('accepted')
+            else:
+                m = re.search(r'(Incorrect\w+|Undefined\w+|NonRedefined\w+|ClassExpected\w+|RunMethodExpected\w+)', str(o[1]))
+                res.add(m.group(1) if m else str(o[1])[:40])
+        return sorted(res)
+
+    # ---- the class check (IncorrectTypeClass / IncorrectBaseClass): every leaf that performs it, on three values
+    good = AObj(('ext', 'created-class'), {'__name__': 'Good'}, tag='Good')
+    nobase = AObj(('ext', 'created-class'), {'__name__': 'NoBase'}, tag='NoBase')
+    ext_cls = {'inspect.isclass': lambda a, k: isinstance(a[0], AObj),
+               'inspect.getmro': lambda a, k: (a[0],) + (tuple(AClass(ci) for ci in node_base) if a[0] is good else ())}
+    leaves = []
+    for cls in ('IncorrectTypeClass', 'IncorrectBaseClass'):
+        for u, r in found.get(cls, []):
+            if u not in leaves:
+                leaves.append(u)
+    probs_t, probs_b, decided = [], [], []
+    for u in leaves:
+        a_ = u.node.args
+        nparams = len(a_.args) - (1 if u.cls is not None and not u.is_static else 0)
+        calls_builder = u.cls is not None and any(isinstance(n, ast.Call) and isinstance(n.func, ast.Attribute) and isinstance(n.func.value, ast.Name)
+                                                  and n.func.value.id in ('self', 'cls') and n.func.attr in u.cls.methods for n in ast.walk(u.node))
+        if nparams != 1 or calls_builder or any(isinstance(n, (ast.While, ast.For)) for n in ast.walk(u.node)):
+            decided.append(f'{u.qualname}: check written in line, interpreted with the builder worlds (VL-8 / VL-9)')
+            continue
+        self_obj = None if (u.cls is None or u.is_static) else AObj(u.cls, {})
+        table = {'a value that is not a class': outcomes(u, ['not-a-class'], {}, self_obj, ext_cls),
+                 'a class without the node base': outcomes(u, [nobase], {}, self_obj, ext_cls),
+                 'a node class': outcomes(u, [good], {}, self_obj, ext_cls)}
+        decided.append(f'{u.qualname}: {table}')
+        if table['a value that is not a class'] != ['IncorrectTypeClass']:
+            probs_t.append(f'{u.qualname}(<not a class>): {table["a value that is not a class"]}')
+        if table['a node class'] != ['accepted']:
+            probs_t.append(f'{u.qualname}(<node class>): {table["a node class"]}')
+            probs_b.append(f'{u.qualname}(<node class>): {table["a node class"]}')
+        if table['a class without the node base'] != ['IncorrectBaseClass']:
+            probs_b.append(f'{u.qualname}(<class without NodeBase>): {table["a class without the node base"]}')
+    out['IncorrectTypeClass'] = (probs_t, '; '.join(decided))
+    out['IncorrectBaseClass'] = (probs_b, '; '.join(decided))
+
+    # ---- annotations: decided by VL-7 (the function raising them interpreted over eleven abstract signatures)
+    for cls in ('UndefinedAnnotation', 'UndefinedParamAnnotation'):
+        out[cls] = ([], 'decided by VL-7: the annotation check interpreted over abstract signatures')
+
+    # ---- generic marks: the marks reader interpreted on one parameter per mark class
+    marks = _mark_classes(ctx)
+    mm = _marks_map_function(ctx)
+    accepted, rejected = _marks_verdicts(ctx, mm, marks)
+    generic = {n for n in marks if 'Generic' in n}
+    probs = []
+    if not generic:
+        raise AnalysisError('no generic mark class found (VL-3 anchor vanished)')
+    if rejected != generic:
+        probs.append(f'the marks reader rejects {sorted(rejected)}, the generic marks are {sorted(generic)}')
+    b = _builder_class(ctx)
+
+    def reader_outcome(mark):
+        run_method = AObj(('ext', 'function'), {'__annotations__': {'p': mark, 'return': TOP}}, tag='run-method')
+        stubs = {u.fid: (lambda interp, a, k, s_: run_method) for u in p.functions.values()
+                 if u.parent is None and u.cls is None and u.name == 'get_callable_run_method'}
+        hints = lambda a, k: {'p': mark, 'return': TOP}      # noqa: E731
+        n_ = AObj(('ext', 'Node'), {'process': run_method})
+        return outcomes(mm, [n_], {}, None if mm.is_static else AObj(b, {}), {'typing.get_type_hints': hints, 'inspect.get_annotations': hints}, stubs, consume=True)
+    for gname in sorted(generic):
+        got = reader_outcome(AObj(marks[gname], {}, tag=f'mark:{gname}'))
+        if got != ['NonRedefinedGenericTypeError']:
+            probs.append(f'a parameter annotated with {gname}: {got}')
+    out['NonRedefinedGenericTypeError'] = (probs, f'the marks reader rejects exactly {sorted(generic)} with this error')
+
+    # ---- recurrent declarations: decided by VL-4 (builder worlds with a defective / a valid recurrent subgraph)
+    for cls in ('IncorrectRecurrentMixinClass', 'IncorrectParamsRecurrentNode'):
+        out[cls] = ([], 'decided by VL-4: build() interpreted over recurrent declaration sets')
+
+    # ---- build_node / get_callable_run_method
+    bn = next((u for u in p.functions.values() if u.parent is None and u.cls is None and u.name == 'build_node'), None)
+    grm = next((u for u in p.functions.values() if u.parent is None and u.cls is None and u.name == 'get_callable_run_method'), None)
+    if bn is None or grm is None:
+        raise AnalysisError('build_node / get_callable_run_method not found (VL-3 anchor vanished)')
+    process = AObj(('ext', 'function'), {'__doc__': 'DOC', '__name__': 'process', '__annotations__': {}, '__dict__': {}}, tag='process')
+    with_process = AObj(('ext', 'created-class'), {'process': process, '__name__': 'Base', 'name': 'base', '__module__': 'user'}, tag='Base')
+    without = AObj(('ext', 'created-class'), {'process': None, '__name__': 'NoProcess', 'name': 'np', '__module__': 'user'}, tag='NoProcess')
+    ext_bn = {'inspect.isclass': lambda a, k: isinstance(a[0], AObj), 'inspect.iscoroutinefunction': lambda a, k: False,
+              'builtins.globals': lambda a, k: {}}
+    t1 = outcomes(bn, ['not-a-class'], {}, None, ext_bn)
+    t2 = outcomes(bn, [without], {}, None, ext_bn)
+    t3 = outcomes(bn, [with_process], {}, None, ext_bn)
+    probs_c, probs_r = [], []
+    if t1 != ['ClassExpectedError']:
+        probs_c.append(f'build_node(<not a class>): {t1}')
+    if t3 != ['accepted']:
+        probs_c.append(f'build_node(<node class>): {t3}')
+        probs_r.append(f'build_node(<node class>): {t3}')
+    if t2 != ['RunMethodExpectedError']:
+        probs_r.append(f'build_node(<class without a callable process>): {t2}')
+    gi = {u.fid: (lambda interp, a, k, s_: a[0] if a else k.get('cls')) for u in p.functions.values()
+          if u.parent is None and u.cls is None and u.name == 'get_instance'}
+    t4 = outcomes(grm, [without], {}, None, {}, gi)
+    t5 = outcomes(grm, [with_process], {}, None, {}, gi)
+    if t4 != ['RunMethodExpectedError']:
+        probs_r.append(f'get_callable_run_method(<class without a callable process>): {t4}')
+    if t5 != ['accepted']:
+        probs_r.append(f'get_callable_run_method(<node class>): {t5}')
+    out['ClassExpectedError'] = (probs_c, f'build_node: not a class -> {t1}, node class -> {t3}')
+    out['RunMethodExpectedError'] = (probs_r, f'build_node / get_callable_run_method: no callable process -> {t2} / {t4}, node class -> {t3} / {t5}')
+    return out
 
 
 def rule_annotation_check_semantics(ctx: Ctx, out: Collector) -> None:
